@@ -32,7 +32,7 @@ ASSUMPTIONS = [
     "regular files and directories only; names without control characters, U+2028/2029 excluded here (C10 covers them)",
 ]
 BUDGET = {"quick": (240, 4), "thorough": (72000, 16)}
-REQUIRED = ["nested", "prior_generation", "sf", "sf_folder", "empty_file", "empty_dir", "special_name", "-n", "prefix_sibling", "big_file", "user_patterns_-ii", "pattern_with_blank"]
+REQUIRED = ["nested", "prior_generation", "sf", "sf_folder", "empty_file", "empty_dir", "special_name", "-n", "prefix_sibling", "big_file", "user_patterns_-ii", "pattern_with_blank", "failed_record_formats", "sf_names_root"]
 
 CFG = {
     "kinds": ["create"] * 4 + ["create_sf"] * 2 + ["put_new", "put_new", "overwrite", "rm", "rmtree", "mkdir", "mv"],
@@ -40,13 +40,15 @@ CFG = {
     "max_steps": 8,
     "final": ["create"],
     "flags": {"-n": 0.2, "-v": 0.1},
+    "sf_overlap": True,  # selections that reach a file twice (a folder and something in it) ...
+    "sf_root": True,  # ... or that name the history root itself
 }
 
 
 @st.composite
 def _scn(draw):
     scn = draw(st.one_of(hist.scenarios_deep(CFG), hist.scenarios_deep(dict(CFG, final=["create_sf"]))))
-    extra = draw(st.sampled_from([None, None, None, "prefix", "prefix", "big", "twins", "deep_sf"]))
+    extra = draw(st.sampled_from([None, None, None, "prefix", "prefix", "big", "twins", "deep_sf", "altered_multi"]))
     if extra == "prefix":
         # a nested history whose folder name is a prefix of a sibling folder / file that has no history of its own
         base = draw(st.sampled_from(["Clips", "s", "A", "Reel1"]))
@@ -69,6 +71,15 @@ def _scn(draw):
             scn["tree"]["dsf"] = {"l1": {"l2": {"l3": {"deep.mov": "d3"}, "mid.mov": "d2"}, "up.mov": "d1"}, "top.mov": "d0"}
             pre = [{"op": "create", "root": "dsf/l1/l2", "formats": ["md5"], "flags": []}] if draw(st.booleans()) else []
             scn["steps"] = pre + scn["steps"] + [{"op": "create_sf", "root": "", "formats": draw(gen.formats(2)), "flags": [], "sf": [draw(st.sampled_from(["dsf", "dsf/l1", "dsf"]))]}]
+    elif extra == "altered_multi":
+        # a file recorded in two or three formats is altered and sealed again in those formats (folder mode or -sf): exit 11
+        if "am" not in hist.top_names_used(scn):
+            fm = draw(st.lists(st.sampled_from(gen.CLI_FORMATS), min_size=2, max_size=3, unique=True))
+            scn["tree"]["am"] = {"kept.mov": "kept", "altered later.mov": "as first recorded"}
+            again = {"op": "create", "root": "", "formats": draw(st.permutations(fm)), "flags": []}
+            if draw(st.booleans()):
+                again = dict(again, op="create_sf", sf=["am"])
+            scn["steps"] = scn["steps"] + [{"op": "create", "root": "", "formats": fm, "flags": []}, {"op": "overwrite", "path": "am/altered later.mov", "spec": "altered afterwards"}, again]
     elif extra == "big":
         # one file beyond the 1 MiB read chunk, size not a multiple of it
         if "big.bin" not in hist.top_names_used(scn):
@@ -178,6 +189,8 @@ def observe_create(w, scn, step, before_asc, res, ctx):
         exp = set()
         for s in step["sf"]:
             sp = hist.wpath(scn, s)
+            if sp == root:
+                ctx.event("sf_names_root")
             if sp in w.files:
                 exp.add(("file", sp))
             else:
@@ -193,8 +206,13 @@ def observe_create(w, scn, step, before_asc, res, ctx):
         if kind == "file":
             fm = {e["fmt"] for e in rec["entries"]}
             if not any(e["action"] == "failed" for e in rec["entries"]):
-                # (an altered file keeps its failed check and gets no new-format digest: C04)
                 require(F <= fm, "formats", "%s: requested %s, recorded %s" % (full, sorted(F), sorted(fm)), res)
+            else:
+                # (an altered file keeps its failed check and gets no new-format digest: C04) - but every requested
+                # format the history already holds for it is computed and recorded again
+                old = {e["fmt"] for n_, p_, d_ in w.read_history(hroot) if p_ not in new for r_ in d_["records"] if r_["kind"] == "file" and r_["path"] == rec["path"] for e in r_["entries"]}
+                require((F & old) <= fm, "formats", "altered %s: requested and already recorded %s, recorded now %s" % (full, sorted(F & old), sorted(fm)), res)
+                ctx.event("failed_record_formats")
             for e in rec["entries"]:
                 ref = refhash.digest(e["fmt"], w.files[full])
                 require(e["digest"] == ref, "digest", "%s %s: recorded %s, bytes hash to %s" % (full, e["fmt"], e["digest"], ref), res)
